@@ -137,7 +137,9 @@ type loopVars map[string]string
 func renameExpr(s string, lv loopVars) string {
 	// replace whole identifiers
 	var sb strings.Builder
-	isId := func(ch byte) bool { return ch == '_' || ch >= 'a' && ch <= 'z' || ch >= 'A' && ch <= 'Z' || ch >= '0' && ch <= '9' }
+	isId := func(ch byte) bool {
+		return ch == '_' || ch >= 'a' && ch <= 'z' || ch >= 'A' && ch <= 'Z' || ch >= '0' && ch <= '9'
+	}
 	for i := 0; i < len(s); {
 		if isId(s[i]) && (i == 0 || !isId(s[i-1])) {
 			j := i
